@@ -1,3 +1,4 @@
 import Cgm.Lemmas.AuditCmd
 import Cgm.Props.C10
+import Cgm.Props.C10b
 #audit_namespace Cg.C10
